@@ -46,6 +46,7 @@ PY = "/venv/bin/python"
 BOOT = r'''
 import sys, os, json, time, atexit
 _LOG = os.environ.get("VERIF_AUDIT_LOG")
+_MKD = float(os.environ.get("VERIF_MKDIR_DELAY", "0") or 0)
 _w = []
 def _hook(ev, args):
     try:
@@ -56,6 +57,10 @@ def _hook(ev, args):
                 _w.append(["open", os.fsdecode(path)])
         elif ev == "os.mkdir":
             _w.append(["mkdir", os.fsdecode(args[0])])
+            if _MKD:
+                # injected delay at the system-call boundary (the event fires before the mkdir itself): a process that
+                # decided "directory missing" is held here while its siblings reach the same decision
+                time.sleep(_MKD)
         elif ev in ("os.remove", "os.rename", "os.rmdir", "os.truncate", "shutil.move", "shutil.rmtree"):
             _w.append([ev, os.fsdecode(args[0])])
             if ev in ("os.rename", "shutil.move") and len(args) > 1:
@@ -288,6 +293,7 @@ def _run(case, cfg, work, ctx):
                 extra = dict(base_env, PYTHONHASHSEED=str(sch["hashseed_base"] + ci + 1), VERIF_AUDIT_LOG=log)
                 if sch["release"] == "barrier":
                     extra["VERIF_START_AT"] = repr(start_at)
+                    extra["VERIF_MKDIR_DELAY"] = "0.3"
                 else:
                     dl = rng.randrange(0, 200)
                     sched_desc["delays_ms"].append(dl)
